@@ -1174,10 +1174,13 @@ func TestGocvReplay(t *testing.T) {
 	replayers["(*kmipclient.Client).Request"] = replayers["scenario:C12"]
 	replayers["(*kmipclient.Client).BatchOpt"] = replayers["scenario:C12"]
 	// key accessors (C14): every decodable shape with optional parts missing
-	replayers["scenario:C14"] = &Replayer{PkgDir: ".", Oracle: "SymmetricKey, SecretData, PublicKey, PrivateKey with every key format type x {no key value, wrapped only, plain without material, plain with each single material kind present, transparent RSA private key with every subset of its 7 optional parts, EC scalars / points and RSA numbers that are zero, negative, equal to or far above the valid range on every curve}: every accessor returns normally (value or error), never panics",
+	replayers["scenario:C14"] = &Replayer{PkgDir: ".", Oracle: "SymmetricKey, SecretData, PublicKey, PrivateKey with every key format type x {no key value, wrapped only, plain without material, plain with each single material kind present, transparent RSA private key with every subset of its 7 optional parts, EC scalars / points and RSA numbers that are zero, negative, equal to or far above the valid range on every curve}: every accessor returns normally (value or error), never panics; freshly generated ECDSA keys on the four curves, in both transparent layouts, are extracted equal to the original",
 		Template: `package kmip
 
 import (
+	"crypto/ecdsa"
+	"crypto/elliptic"
+	"crypto/rand"
 	"fmt"
 	"math/big"
 	"testing"
@@ -1263,6 +1266,41 @@ func TestGocvReplay(t *testing.T) {
 			try("PrivateKey.Pkcs8Pem", func() { priv.Pkcs8Pem() })
 		}
 	}
+	// real keys: what the accessors extract is the key that was put in (every curve, both transparent layouts)
+	for _, cv := range []struct {
+		rc    RecommendedCurve
+		curve elliptic.Curve
+	}{ {RecommendedCurveP_224, elliptic.P224()}, {RecommendedCurveP_256, elliptic.P256()}, {RecommendedCurveP_384, elliptic.P384()}, {RecommendedCurveP_521, elliptic.P521()} } {
+		key, err := ecdsa.GenerateKey(cv.curve, rand.Reader)
+		if err != nil {
+			t.Fatal(err)
+		}
+		//nolint:staticcheck // the uncompressed point encoding is what KMIP carries
+		q := elliptic.Marshal(cv.curve, key.X, key.Y)
+		for _, f := range []KeyFormatType{KeyFormatTypeTransparentECPublicKey, KeyFormatTypeTransparentECDSAPublicKey} {
+			mat := KeyMaterial{TransparentECPublicKey: &TransparentECPublicKey{RecommendedCurve: cv.rc, QString: q}}
+			if f == KeyFormatTypeTransparentECDSAPublicKey {
+				mat = KeyMaterial{TransparentECDSAPublicKey: &TransparentECDSAPublicKey{RecommendedCurve: cv.rc, QString: q}}
+			}
+			pub := &PublicKey{KeyBlock: KeyBlock{KeyFormatType: f, KeyValue: &KeyValue{Plain: &PlainKeyValue{KeyMaterial: mat}}}}
+			got, err := pub.ECDSA()
+			if err != nil || !got.Equal(&key.PublicKey) {
+				t.Fatalf("GOCV-REPRODUCED: {{.Obligation}}: PublicKey.ECDSA on a transparent public key (format %d) of curve %s: err=%v, equal=%v", f, cv.curve.Params().Name, err, err == nil && got.Equal(&key.PublicKey))
+			}
+		}
+		for _, f := range []KeyFormatType{KeyFormatTypeTransparentECPrivateKey, KeyFormatTypeTransparentECDSAPrivateKey} {
+			mat := KeyMaterial{TransparentECPrivateKey: &TransparentECPrivateKey{RecommendedCurve: cv.rc, D: *key.D}}
+			if f == KeyFormatTypeTransparentECDSAPrivateKey {
+				mat = KeyMaterial{TransparentECDSAPrivateKey: &TransparentECDSAPrivateKey{RecommendedCurve: cv.rc, D: *key.D}}
+			}
+			priv := &PrivateKey{KeyBlock: KeyBlock{KeyFormatType: f, KeyValue: &KeyValue{Plain: &PlainKeyValue{KeyMaterial: mat}}}}
+			got, err := priv.ECDSA()
+			if err != nil || !got.Equal(key) {
+				t.Fatalf("GOCV-REPRODUCED: {{.Obligation}}: PrivateKey.ECDSA on a transparent private key (format %d) of curve %s: err=%v, equal=%v", f, cv.curve.Params().Name, err, err == nil && got.Equal(key))
+			}
+		}
+	}
+
 }
 `}
 	for _, fn := range []string{"(*kmip.KeyBlock).GetMaterial", "(*kmip.KeyBlock).GetBytes", "(*kmip.KeyBlock).GetAttributes", "(*kmip.SymmetricKey).KeyMaterial", "(*kmip.SecretData).Data",
@@ -1692,7 +1730,7 @@ func TestGocvReplay(t *testing.T) {
 }
 `}
 	// text encodings (C18): accepted non-canonical XML / JSON forms re-encode to the canonical document
-	replayers["scenario:C18-text"] = &Replayer{PkgDir: ".", Oracle: "a two-item request message (Create with enumeration, integer, mask and structure attributes; Register of a raw symmetric key) in its canonical JSON and XML form, rewritten with 34 non-canonical spellings the decoders accept (enumerations and masks by number or hex string or in another order, integers as hex strings, a date-time in another zone, a tag by number): each accepted document decodes to a message whose re-encoding is the canonical document, decodes again, re-encodes byte-identically, and has the binary form of the original",
+	replayers["scenario:C18-text"] = &Replayer{PkgDir: ".", Oracle: "a two-item request message (Create with enumeration, integer, mask and structure attributes; Register of a raw symmetric key) in its canonical JSON and XML form, rewritten with 34 non-canonical spellings the decoders accept (enumerations and masks by number or hex string or in another order, integers as hex strings, a date-time in another zone, a tag by number): each accepted document decodes to a message whose re-encoding is the canonical document, decodes again, re-encodes byte-identically, and has the binary form of the original; 16 values accepted in binary form (intervals up to 2^32-1 s, text strings with backslashes, quotes, control characters and non-ASCII runes, negative numbers, dates before 1970) are written in each of the three encodings, read back and written again byte-identically; 16 raw JSON / XML documents with out-of-range or oddly spelt values (negative and too large intervals, a hexadecimal date-time, a negative hexadecimal tag) are either rejected or, once accepted, can be written in every encoding, read back and written again byte-identically",
 		Template: `package kmip_test
 
 import (
@@ -1769,6 +1807,98 @@ func TestGocvReplay(t *testing.T) {
 			}
 			if b1, b2 := ttlv.MarshalTTLV(&m1), ttlv.MarshalTTLV(m); !bytes.Equal(b1, b2) {
 				t.Errorf("GOCV-REPRODUCED: {{.Obligation}}: %s: %q -> %q: binary form of the decoded message differs from the original", c.name, r[0], r[1])
+			}
+		}
+	}
+	gocvCrossFixedPoint(t)
+	gocvRawDocuments(t)
+}
+
+func gocvCrossFixedPoint(t *testing.T) {
+	type codec struct {
+		name string
+		enc  func(any) []byte
+		dec  func([]byte, any) error
+	}
+	codecs := []codec{ {"ttlv", ttlv.MarshalTTLV, ttlv.UnmarshalTTLV}, {"xml", ttlv.MarshalXML, ttlv.UnmarshalXML}, {"json", ttlv.MarshalJSON, ttlv.UnmarshalJSON}}
+	vals := []ttlv.Value{
+		{Tag: kmip.TagLeaseTime, Value: 3000000000 * time.Second}, {Tag: kmip.TagLeaseTime, Value: time.Duration(1<<32-1) * time.Second}, {Tag: kmip.TagLeaseTime, Value: time.Duration(0)},
+		{Tag: kmip.TagUniqueIdentifier, Value: "ACME\\kmip-admin"}, {Tag: kmip.TagUniqueIdentifier, Value: "a\\n"}, {Tag: kmip.TagUniqueIdentifier, Value: "quote\"and<&>'"}, {Tag: kmip.TagUniqueIdentifier, Value: "tab\tnl\ncr\r"},
+		{Tag: kmip.TagUniqueIdentifier, Value: "bell\a"}, {Tag: kmip.TagUniqueIdentifier, Value: "del\x7f"}, {Tag: kmip.TagUniqueIdentifier, Value: "é€😀"},
+		{Tag: kmip.TagBatchCount, Value: int32(-1)}, {Tag: kmip.TagUsageLimitsTotal, Value: int64(-1)}, {Tag: kmip.TagAsynchronousIndicator, Value: true},
+		{Tag: kmip.TagKeyMaterial, Value: []byte{0, 255}}, {Tag: kmip.TagTimeStamp, Value: time.Unix(1577934245, 0)}, {Tag: kmip.TagTimeStamp, Value: time.Unix(-1, 0)},
+	}
+	for _, v := range vals {
+		raw := ttlv.MarshalTTLV(v)
+		var v1 ttlv.Value
+		if err := ttlv.UnmarshalTTLV(raw, &v1); err != nil {
+			t.Logf("binary form of %v rejected: %v", v.Value, err)
+			continue
+		}
+		for _, c := range codecs {
+			func() {
+				defer func() {
+					if p := recover(); p != nil {
+						t.Fatalf("GOCV-REPRODUCED: {{.Obligation}}: %s: %T(%q): panic %v", c.name, v.Value, v.Value, p)
+					}
+				}()
+				e1 := c.enc(v1)
+				var v2 ttlv.Value
+				if err := c.dec(e1, &v2); err != nil {
+					t.Fatalf("GOCV-REPRODUCED: {{.Obligation}}: %s: %T(%q) accepted in binary form is written as %s which the %s decoder rejects: %v", c.name, v.Value, v.Value, e1, c.name, err)
+					return
+				}
+				if e2 := c.enc(v2); !bytes.Equal(e1, e2) {
+					t.Fatalf("GOCV-REPRODUCED: {{.Obligation}}: %s: %T(%q): second re-encoding differs: %s vs %s", c.name, v.Value, v.Value, e1, e2)
+				}
+			}()
+		}
+	}
+}
+
+func gocvRawDocuments(t *testing.T) {
+	type codec struct {
+		name string
+		enc  func(any) []byte
+		dec  func([]byte, any) error
+	}
+	codecs := map[string]codec{"ttlv": {"ttlv", ttlv.MarshalTTLV, ttlv.UnmarshalTTLV}, "xml": {"xml", ttlv.MarshalXML, ttlv.UnmarshalXML}, "json": {"json", ttlv.MarshalJSON, ttlv.UnmarshalJSON}}
+	docs := map[string][]string{
+		"json": {
+			"{\"tag\":\"LeaseTime\",\"type\":\"Interval\",\"value\":-1}", "{\"tag\":\"LeaseTime\",\"type\":\"Interval\",\"value\":4294967296}", "{\"tag\":\"LeaseTime\",\"type\":\"Interval\",\"value\":9223372036854775807}",
+			"{\"tag\":\"LeaseTime\",\"type\":\"Interval\",\"value\":4294967295}", "{\"tag\":\"LeaseTime\",\"type\":\"Interval\",\"value\":\"0x0000000A\"}",
+			"{\"tag\":\"TimeStamp\",\"type\":\"DateTime\",\"value\":\"0x253402300800\"}", "{\"tag\":\"TimeStamp\",\"type\":\"DateTime\",\"value\":\"0x000000005e0d5a25\"}",
+			"{\"tag\":\"0x-1\",\"type\":\"Integer\",\"value\":1}", "{\"tag\":\"0x42000d\",\"type\":\"Integer\",\"value\":1}", "{\"tag\":\"0x1000000\",\"type\":\"Integer\",\"value\":1}",
+		},
+		"xml": {
+			"<TTLV tag=\"0x-1\" type=\"Integer\" value=\"1\"/>", "<TTLV tag=\"0x42000d\" type=\"Integer\" value=\"1\"/>", "<TTLV tag=\"0x1000000\" type=\"Integer\" value=\"1\"/>",
+			"<LeaseTime type=\"Interval\" value=\"4294967295\"/>", "<LeaseTime type=\"Interval\" value=\"4294967296\"/>", "<LeaseTime type=\"Interval\" value=\"-1\"/>",
+		},
+	}
+	for cn, list := range docs {
+		for _, doc := range list {
+			var v1 ttlv.Value
+			if err := codecs[cn].dec([]byte(doc), &v1); err != nil {
+				_ = err
+				continue
+			}
+			for _, c := range codecs {
+				func() {
+					defer func() {
+						if p := recover(); p != nil {
+							t.Fatalf("GOCV-REPRODUCED: {{.Obligation}}: %s input %s is accepted but writing it in %s panics: %v", cn, doc, c.name, p)
+						}
+					}()
+					e1 := c.enc(v1)
+					var v2 ttlv.Value
+					if err := c.dec(e1, &v2); err != nil {
+						t.Fatalf("GOCV-REPRODUCED: {{.Obligation}}: %s input %s is accepted, written in %s as %s, and that is rejected: %v", cn, doc, c.name, e1, err)
+						return
+					}
+					if e2 := c.enc(v2); !bytes.Equal(e1, e2) {
+						t.Fatalf("GOCV-REPRODUCED: {{.Obligation}}: %s input %s: second re-encoding in %s differs: %s vs %s", cn, doc, c.name, e1, e2)
+					}
+				}()
 			}
 		}
 	}
@@ -2013,6 +2143,144 @@ func TestGocvReplay(t *testing.T) {
 }
 `}
 	replayers["(*kmipserver.conn).writeloop"] = replayers["scenario:C08-unencodable"]
+	// a deadline expiring while the request is being written (C11): the exchange is abandoned with its connection
+	replayers["scenario:C11-stale"] = &Replayer{PkgDir: "kmipclient", Oracle: "a call whose deadline expires while its request is blocked in the write (the peer is not reading) fails; when the peer then reads and answers everything it receives, the next call gets the answer to its own request (over a fresh connection), never the answer to the abandoned one",
+		Template: `package kmipclient_test
+
+import (
+	"context"
+	"net"
+	"sync/atomic"
+	"testing"
+	"time"
+
+	"github.com/ovh/kmip-go"
+	"github.com/ovh/kmip-go/kmipclient"
+	"github.com/ovh/kmip-go/payloads"
+	"github.com/ovh/kmip-go/ttlv"
+)
+
+// Scripted transport: every dialled connection is a net.Pipe whose server side waits for the gate,
+// then answers each Activate request with the identifier it received.
+//
+// Call 1 times out while its request is being written (the peer is not reading yet). The connection is
+// then in an unknown state and must not be reused: call 2 has to get the answer to ITS OWN request.
+func TestGocvReplay(t *testing.T) {
+	gate := make(chan struct{})
+	var dials atomic.Int32
+
+	serve := func(srv net.Conn) {
+		defer srv.Close()
+		<-gate
+		stream := ttlv.NewStream(srv, -1)
+		for {
+			var req kmip.RequestMessage
+			if err := stream.Recv(&req); err != nil {
+				return
+			}
+			id := ""
+			if len(req.BatchItem) == 1 {
+				if pl, ok := req.BatchItem[0].RequestPayload.(*payloads.ActivateRequestPayload); ok {
+					id = pl.UniqueIdentifier
+				}
+			}
+			resp := kmip.ResponseMessage{
+				Header: kmip.ResponseHeader{ProtocolVersion: req.Header.ProtocolVersion, TimeStamp: time.Now(), BatchCount: 1},
+				BatchItem: []kmip.ResponseBatchItem{ {
+					Operation:       kmip.OperationActivate,
+					ResultStatus:    kmip.ResultStatusSuccess,
+					ResponsePayload: &payloads.ActivateResponsePayload{UniqueIdentifier: id},
+				}},
+			}
+			if err := stream.Send(&resp); err != nil {
+				return
+			}
+		}
+	}
+	dialer := func(ctx context.Context) (net.Conn, error) {
+		cli, srv := net.Pipe()
+		dials.Add(1)
+		go serve(srv)
+		return cli, nil
+	}
+
+	client, err := kmipclient.Dial("scripted", kmipclient.WithDialerUnsafe(dialer), kmipclient.EnforceVersion(kmip.V1_4))
+	if err != nil {
+		t.Fatalf("dial: %v", err)
+	}
+	defer client.Close()
+
+	type result struct {
+		pl  kmip.OperationPayload
+		err error
+	}
+	call := func(id string, timeout time.Duration) result {
+		done := make(chan result, 1)
+		go func() {
+			ctx, cancel := context.WithTimeout(context.Background(), timeout)
+			defer cancel()
+			pl, err := client.Request(ctx, &payloads.ActivateRequestPayload{UniqueIdentifier: id})
+			done <- result{pl, err}
+		}()
+		select {
+		case r := <-done:
+			return r
+		case <-time.After(5 * time.Second):
+			t.Fatalf("GOCV-REPRODUCED: {{.Obligation}}: call %q hangs", id)
+			return result{}
+		}
+	}
+
+	// Call 1: the peer does not read, the write stays blocked, the caller's deadline (100ms) expires.
+	r1 := call("first", 100*time.Millisecond)
+	if r1.err == nil {
+		t.Fatalf("GOCV-REPRODUCED: {{.Obligation}}: call 1: expected a timeout error, got payload %#v", r1.pl)
+	}
+
+	// The peer starts reading now.
+	close(gate)
+
+	// Call 2: must be answered for "second" (on the unmodified code: over a fresh connection).
+	r2 := call("second", 3*time.Second)
+	if r2.err != nil {
+		t.Fatalf("GOCV-REPRODUCED: {{.Obligation}}: call 2: unexpected error: %v (dials=%d)", r2.err, dials.Load())
+	}
+	got, ok := r2.pl.(*payloads.ActivateResponsePayload)
+	if !ok {
+		t.Fatalf("GOCV-REPRODUCED: {{.Obligation}}: call 2: unexpected payload %T", r2.pl)
+	}
+	if got.UniqueIdentifier != "second" {
+		t.Fatalf("GOCV-REPRODUCED: {{.Obligation}}: call 2 for %q received the response of another exchange: %q (dials=%d)", "second", got.UniqueIdentifier, dials.Load())
+	}
+}
+`}
+	// cluster dialer (C11): connecting never panics
+	replayers["scenario:C11-cluster"] = &Replayer{PkgDir: "kmipclient", Oracle: "DialCluster against an address nobody listens on, without and with a retry timeout: the call returns an error, it does not panic",
+		Template: `package kmipclient_test
+
+import (
+	"testing"
+	"time"
+
+	"github.com/ovh/kmip-go/kmipclient"
+)
+
+func TestGocvReplay(t *testing.T) {
+	for i, opts := range [][]kmipclient.Option{nil, {kmipclient.WithRetryTimeout(time.Second)}} {
+		func() {
+			defer func() {
+				if p := recover(); p != nil {
+					t.Fatalf("GOCV-REPRODUCED: {{.Obligation}}: DialCluster (option set %d) against an unreachable address panics: %v", i, p)
+				}
+			}()
+			c, err := kmipclient.DialCluster([]string{"127.0.0.1:1"}, opts...)
+			if err == nil {
+				_ = c.Close()
+			}
+		}()
+	}
+}
+`}
 	// abandoned exchange (C11): the writer goroutine must end when the caller has given up
 	replayers["scenario:C11-writeloop"] = &Replayer{PkgDir: "kmipclient", Oracle: "a request is handed to the writer goroutine over a pipe whose peer never reads, the caller's context is cancelled while the write is blocked, the connection is closed: send returns and, within 2 s, no goroutine of the connection is left blocked on a channel send",
 		Template: `package kmipclient
@@ -2104,6 +2372,22 @@ func TestGocvReplay(t *testing.T) {
 			}
 		}
 	}
+	// the text marshalers of the mask types, and the documented fallback of EnumStr
+	for _, v := range []int32{0, 1, 3, 1 << 20, 1 << 30, -2147483648, -1} {
+		m := kmip.CryptographicUsageMask(v)
+		txt, err := m.MarshalText()
+		if err != nil {
+			t.Fatalf("GOCV-REPRODUCED: {{.Obligation}}: MarshalText of usage mask %#x: %v", uint32(v), err)
+		}
+		var back kmip.CryptographicUsageMask
+		if err := back.UnmarshalText(txt); err != nil || back != m {
+			t.Fatalf("GOCV-REPRODUCED: {{.Obligation}}: usage mask %#x marshals to the text %q which reads back as %#x (err=%v)", uint32(v), txt, uint32(back), err)
+		}
+	}
+	if a, b := ttlv.EnumStr(kmip.ResultReason(0x99)), ttlv.EnumStr(kmip.ResultReason(0x98)); a == b || a == "" {
+		t.Fatalf("GOCV-REPRODUCED: {{.Obligation}}: EnumStr gives %q and %q for the unregistered Result Reason values 0x99 and 0x98: two numbers share one text", a, b)
+	}
+
 }
 `}
 	// big integers (C18 / C01): the two's-complement conversions run through math/big and carry loops whose
@@ -2321,6 +2605,14 @@ func TestGocvReplay(t *testing.T) {
 			}
 		}
 	}
+	// nesting: what sits inside an element the decoder does not know is never taken for a field of the enclosing
+	// structure ("never takes content from outside the declared extent of the enclosing structure")
+	nested := "<RequestMessage><RequestHeader><ProtocolVersion><ProtocolVersionMajor type=\"Integer\" value=\"1\"/><ProtocolVersionMinor type=\"Integer\" value=\"4\"/></ProtocolVersion><BatchCount type=\"Integer\" value=\"1\"/><Extra><Foo><Bar type=\"Integer\" value=\"1\"/></Foo><BatchItem><Operation type=\"Enumeration\" value=\"Destroy\"/><RequestPayload><UniqueIdentifier type=\"TextString\" value=\"smuggled\"/></RequestPayload></BatchItem></Extra></RequestHeader></RequestMessage>"
+	var nm kmip.RequestMessage
+	if err := ttlv.UnmarshalXML([]byte(nested), &nm); err == nil && len(nm.BatchItem) != 0 {
+		t.Fatalf("GOCV-REPRODUCED: {{.Obligation}}: the XML decoder took a batch item nested inside an unknown element of the header for a batch item of the message: %+v", nm.BatchItem[0].RequestPayload)
+	}
+
 }
 `}
 	replayers["prefix:(*ttlv.jsonReader)."] = replayers["scenario:C02-text"]
